@@ -16,7 +16,8 @@ from ptera.overlay import BaseOverlay, tooled
 from ptera.probe import probing
 from ptera.selector import select
 
-ALPHA = ["A", "B", "C"]
+# tag names are identifiers: letters, digits, underscores (the string spelling "@V1" and the object spelling tag.V1 name one tag)
+ALPHA = ["A", "V1", "V_2"]
 
 
 def ann_forms(tags, rng):
@@ -44,7 +45,7 @@ def gen_function(i, rng):
         if r < 0.35:
             return []
         return sorted(rng.sample(ALPHA, rng.choice([1, 1, 2, 3])))
-    cfg = {"p": pick(), "q": pick(), "a": pick(), "c": pick(), "ret": pick(), "b2": pick() or ["A"], "c2": pick() or ["B"], "p2": pick() or ["C"]}
+    cfg = {"p": pick(), "q": pick(), "a": pick(), "c": pick(), "ret": pick(), "b2": pick() or [ALPHA[0]], "c2": pick() or [ALPHA[1]], "p2": pick() or [ALPHA[2]]}
 
     def must(tags):
         s = ann_forms(tags, rng)
